@@ -118,6 +118,8 @@ int SimulateF100L::run(int max_cycles, int step)
 
   printf("Running... Press Ctl-C to break.\n");
 
+  stop_running = false;
+
   while (stop_running == false)
   {
     pc_current = pc;
